@@ -177,7 +177,7 @@ pub fn render_frag(r: &R, fr: FnRef, sel: &str, header: &str) -> Result<(String,
         "closure" | "callarg" => {
             // closure <callee>#<n>/<arg>
             let (callee_ord, arg) = rest.rsplit_once('/').ok_or("bad closure selector")?;
-            let (callee, ord) = parse_ord(callee_ord);
+            let (callee, ord) = parse_ord(callee_ord); let callee = callee.replace('~', "::");
             let argi: usize = arg.trim().parse().map_err(|_| "bad arg index")?;
             let mut cf = CallFinder { name: callee.clone(), hits: vec![] };
             cf.visit_block(block);
